@@ -6,6 +6,7 @@ GenInit == scen \in {s \in Scenarios : ValidScenario(s)}
 GenNext == UNCHANGED scen
 GenSpec == GenInit /\ [][GenNext]_scen
 GenCase == PrintT(<<"CASE", ToJson([pend |-> scen.pend, ctx |-> scen.ctx, fault |-> scen.fault,
-                                    pipe |-> scen.pipe, warm |-> scen.warm, small |-> scen.small])>>)
+                                    pipe |-> scen.pipe, warm |-> scen.warm, small |-> scen.small,
+                                    push |-> scen.push, traffic |-> scen.traffic, resp2 |-> scen.resp2])>>)
 
 =============================================================================
